@@ -3,6 +3,7 @@ package main
 // Static over-approximation of the heap keys a function may write (its inferred frame).
 
 import (
+	"strings"
 	"sort"
 	"go/token"
 	"go/types"
@@ -109,6 +110,23 @@ func (e *Engine) modSetOf(fn *ssa.Function) *ModSet {
 		changed := e.modSetPass(fn, ms)
 		if !changed {
 			break
+		}
+	}
+	if fc := e.contractOf(fn); fc != nil && strings.HasPrefix(fc.Opts["frame"], "freshonly") {
+		except := strings.Fields(strings.TrimPrefix(strings.TrimPrefix(fc.Opts["frame"], "freshonly"), " except"))
+		// assumed frame (listed as trusted): of the program heap the function writes only objects it
+		// allocates itself (directly or in its callees); ghost state as inferred
+		for k, ki := range ms.Keys {
+			keep := false
+			for _, x := range except {
+				if x != "except" && strings.Contains(k, x) {
+					keep = true // listed exception: may be written in objects of the caller
+				}
+			}
+			if ki.Ghost == "" && ki.VisitedOf == nil && !keep {
+				ki.FreshOnly = true
+				ms.Keys[k] = ki
+			}
 		}
 	}
 	return ms
@@ -219,6 +237,9 @@ func (e *Engine) callMods(c *ssa.CallCommon, ms *ModSet, inLoop map[*ssa.BasicBl
 	if c.IsInvoke() {
 		if em := e.extInvoke(c); em != nil {
 			em.mods(ms, c)
+			return
+		}
+		if e.isCallbackIface(c) {
 			return
 		}
 		if impls := e.closedImpls(c); impls != nil {
@@ -478,4 +499,14 @@ func (e *Engine) closedImpls(c *ssa.CallCommon) []*ssa.Function {
 	}
 	e.implCache[key] = fs
 	return fs
+}
+
+// isCallbackIface: the invoke goes through an interface declared `callbacks` in the contracts.
+func (e *Engine) isCallbackIface(c *ssa.CallCommon) bool {
+	n, ok := types.Unalias(c.Value.Type()).(*types.Named)
+	if !ok || n.Obj().Pkg() == nil {
+		return false
+	}
+	tc := e.cs.Types[fkey(n.Obj().Pkg().Path(), n.Obj().Name())]
+	return tc != nil && tc.Callbacks
 }
